@@ -171,7 +171,8 @@ Record touch := mkT { t_buf : nat; t_lo : Z; t_n : Z; t_live : bool }.
 Inductive err := TypeError | RangeError.
 Inductive res :=
 | RUndef | RElt (e : elt) | RErr (e : err) | RPanic
-| RNewView (len : Z) | RNewBuf (len : Z) | RLens (len bytelen byteoff : Z) | RBool (b : bool).
+| RNewView (len : Z) | RNewBuf (len : Z) | RLens (len bytelen byteoff : Z) | RBool (b : bool)
+| RExp (off len hash : Z).       (* window of an exported native slice (offset from the buffer start, elements) and a hash of its bytes *)
 
 Definition blen (b : buffer) : Z := Z.of_nat (length (b_bytes b)).
 Definition getb (st : state) (b : nat) : option buffer := nth_error (bufs st) b.
@@ -290,7 +291,9 @@ Inductive op :=
 | OIncludes (v : nat) (x : sval) (from : option iarg)         (* V[v].includes(x, from) *)
 | OIndexOf (v : nat) (x : sval) (from : option iarg)
 | OLastIndexOf (v : nat) (x : sval) (from : option iarg)
-| OCtorFrom (k : kind) (sv : nat).                            (* new T(V[sv]): a new array on a new buffer *)
+| OCtorFrom (k : kind) (sv : nat)                             (* new T(V[sv]): a new array on a new buffer *)
+| OGoExport (v : nat)                                         (* Go: V[v].Export() / ExportTo(&[]T): the native slice *)
+| OGoExportWrite (v : nat) (j : Z) (raw : Z).                 (* Go writes element j through that slice *)
 
 Definition out := (state * res * list touch)%type.
 Definition fail (st : state) (e : err) (t : list touch) : out := (st, RErr e, t).
@@ -735,6 +738,33 @@ Definition op_ctorfrom (m : mode) (st : state) (k : kind) (sv : nat) : out :=
     (mkSt (bufs st ++ [mkBuf bs false]) (views st ++ [mkView nb 0 n k]) (dviews st), RNewView n,
      if n >? 0 then [tch st (v_buf src) (addr m src 0) (n * ss); mkT nb 0 (n * esize k) true] else [])).
 
+(* --- Go side: Value.Export() of a typed-array VIEW gives a native slice ([]int8 ... []float64) that must
+       alias exactly the bytes of the view: it starts at byteOffset and has length elements.
+       goja computes the pointer from the buffer's data, which is nil after a detach: the slice then
+       keeps the view's length at the address byteOffset (unsafe.Slice panics for address 0); the
+       property asks for an empty slice (open finding C17-N10). *)
+Definition bytes_hash (l : list N) : Z :=
+  fold_left (fun h x => Z.land (h * 257 + Z.of_N x + 1) 4294967295) l 7.
+
+Definition op_goexport (m : mode) (st : state) (v : nat) : out :=
+  with_view st v (fun vw =>
+    let n := v_len vw * esize (v_kind vw) in
+    if is_det st (v_buf vw) then
+      match m with
+      | MS => (st, RExp 0 0 (bytes_hash []), [])
+      | MI => if (addr MI vw 0 =? 0) && (v_len vw >? 0) then (st, RPanic, [])
+              else (st, RExp (addr MI vw 0) (v_len vw) (-1), [])
+      end
+    else
+      (st, RExp (addr m vw 0) (v_len vw) (bytes_hash (rd_buf st (v_buf vw) (addr m vw 0) n)),
+       if n >? 0 then [tch st (v_buf vw) (addr m vw 0) n] else [])).
+
+Definition op_goexportwrite (m : mode) (st : state) (v : nat) (j raw : Z) : out :=
+  with_view st v (fun vw =>
+    if valid_idx st vw j then
+      let '(st1, t) := put_raw m st vw j (le_bytes (nbytes (v_kind vw)) raw) in (st1, RUndef, [t])
+    else (st, RUndef, [])).
+
 Definition op_lens (st : state) (v : nat) : out :=
   with_view st v (fun vw =>
     if is_det st (v_buf vw) then (st, RLens 0 0 0, [])
@@ -764,6 +794,8 @@ Definition step (m : mode) (st : state) (o : op) : out :=
   | OIndexOf v x from => op_search_fwd false m st v x from
   | OLastIndexOf v x from => op_lastindexof m st v x from
   | OCtorFrom k sv => op_ctorfrom m st k sv
+  | OGoExport v => op_goexport m st v
+  | OGoExportWrite v j raw => op_goexportwrite m st v j raw
   end.
 
 (* the byte regions an operation is entitled to touch, as (buffer, lo, hi):
@@ -794,7 +826,8 @@ Definition new_region_k (st : state) (k : kind) (v : nat) : list (nat * Z * Z) :
 Definition allowed (st : state) (o : op) : list (nat * Z * Z) :=
   match o with
   | OGet v _ | OSet v _ _ | OSetArr v _ _ | OCopyWithin v _ _ _ | OFill v _ _ _ | OReverse v | OSort v
-  | OLens v | OSubarray v _ _ | OIncludes v _ _ | OIndexOf v _ _ | OLastIndexOf v _ _ => view_region st v
+  | OLens v | OSubarray v _ _ | OIncludes v _ _ | OIndexOf v _ _ | OLastIndexOf v _ _
+  | OGoExport v | OGoExportWrite v _ _ => view_region st v
   | OSetTyped v sv _ => view_region st v ++ view_region st sv
   | OSlice v _ _ => view_region st v ++ new_region st v
   | OCtorFrom k sv => view_region st sv ++ new_region_k st k sv
